@@ -363,7 +363,7 @@ func TestCheck(t *testing.T) {
 		return
 	}
 	scheds := gen.Schedulers()
-	n := run.N(600, 30000)
+	n := run.N(600, 90000)
 	run.Each(n, 8, func(i int) {
 		sc := makeScenario(run, sd, i, "exec")
 		if sc == nil {
@@ -436,7 +436,7 @@ func TestCheck(t *testing.T) {
 	})
 
 	// ---- websocket part ----
-	nw := run.N(120, 4000)
+	nw := run.N(120, 10000)
 	run.Each(nw, 4, func(i int) {
 		sc := makeScenario(run, sd, i, "ws")
 		if sc == nil {
